@@ -6,9 +6,8 @@
        [chk_pump] (a tree with a rule repeated on a path at strictly smaller
        cost => sentences of unbounded cost);
    (3) an (unverified) SEARCH that produces such certificates: Jacobi iteration
-       of the Bellman equations carrying witness trees, growth detection, pump
-       extraction — its output is only ever used after the checkers accepted it
-       ([certified_costs]);
+       of the Bellman equations carrying witness trees, search for pumping contexts — its
+       output is only ever used after the checkers accepted it ([certified_costs]);
    (4) a mirror of the Rust fixed point [rule_min_costs] (grammar.rs) on fuel,
        used for the termination finding. *)
 From Coq Require Import List Arith NArith Bool Lia.
@@ -124,6 +123,13 @@ Definition eget (s : list ent) (r : N) : ent := nth (N.to_nat r) s None.
 Definition oget (s : list (option N)) (r : N) : option N := nth (N.to_nat r) s None.
 Definition tget (s : list (option tree)) (r : N) : option tree := nth (N.to_nat r) s None.
 
+Definition iprods (g : grammar) : list (N * (N * list sym)) := combine (pidxs g) (prods g).
+Definition nr (g : grammar) : nat := N.to_nat (nrules g).
+
+Definition first_some {A B} (f : A -> option B) (l : list A) : option B :=
+  fold_left (fun acc x => match acc with Some _ => acc | None => f x end) l None.
+Definition positions (l : list sym) : list (nat * sym) := combine (seq 0 (length l)) l.
+
 Fixpoint seq_build (c : N -> N) (s : list ent) (l : list sym) : option (N * list tree) :=
   match l with
   | [] => Some (0%N, [])
@@ -144,92 +150,136 @@ Definition improve (better : N -> N -> bool) (old : ent) (v : N) (t : tree) : en
   | Some (v0, _) => if better v v0 then Some (v, t) else old
   end.
 
-Definition opt_step (better : N -> N -> bool) (g : grammar) (c : N -> N) (s : list ent) : list ent :=
+(* one Jacobi round of the Bellman equations over the rules selected by [use] *)
+Definition opt_step (better : N -> N -> bool) (use : N -> bool) (g : grammar) (c : N -> N) (s : list ent) : list ent :=
   map (fun r =>
-         fold_left (fun acc ip =>
-                      if N.eqb (fst (snd ip)) r then
-                        match seq_build c s (snd (snd ip)) with
-                        | Some (v, ks) => improve better acc v (Node (fst ip) ks)
-                        | None => acc
-                        end
-                      else acc)
-                   (combine (pidxs g) (prods g)) (eget s r))
+         if use r then
+           fold_left (fun acc ip =>
+                        if N.eqb (fst (snd ip)) r then
+                          match seq_build c s (snd (snd ip)) with
+                          | Some (v, ks) => improve better acc v (Node (fst ip) ks)
+                          | None => acc
+                          end
+                        else acc)
+                     (iprods g) (eget s r)
+         else None)
       (ridxs g).
 
 Definition ents0 (g : grammar) : list ent := map (fun _ => None) (ridxs g).
-Definition nr (g : grammar) : nat := N.to_nat (nrules g).
 
 Definition min_ents (g : grammar) (c : N -> N) : list ent :=
-  iter (S (nr g)) (opt_step N.ltb g c) (ents0 g).
+  iter (S (nr g)) (opt_step N.ltb (fun _ => true) g c) (ents0 g).
 
 Definition gtb (a b : N) : bool := (b <? a)%N.
-Definition max_ents (g : grammar) (c : N -> N) (k : nat) (s : list ent) : list ent :=
-  iter k (opt_step gtb g c) s.
+Definition max_ents (g : grammar) (c : N -> N) (use : N -> bool) : list ent :=
+  iter (S (nr g)) (opt_step gtb use g c) (ents0 g).
 
 Definition vals (s : list ent) : list (option N) := map (option_map fst) s.
 Definition trees (s : list ent) : list (option tree) := map (option_map snd) s.
 
-(* kids of a production: min witnesses everywhere … *)
-Fixpoint kids_min (mins : list ent) (l : list sym) : option (list tree) :=
+(* kids of a production: the trees prescribed by [subs] at some positions, leaves
+   for tokens and minimum witnesses for rules elsewhere *)
+Fixpoint kids_sub (mins : list ent) (l : list sym) (k : nat) (subs : nat -> option tree) : option (list tree) :=
   match l with
   | [] => Some []
-  | T a :: l' => option_map (cons (Leaf a 0)) (kids_min mins l')
-  | R r :: l' => match eget mins r, kids_min mins l' with
-                 | Some (_, t), Some ks => Some (t :: ks)
-                 | _, _ => None
-                 end
-  end.
-(* … except for the first rule that has a tree in [pt] *)
-Fixpoint kids_pump (mins : list ent) (pt : list (option tree)) (l : list sym) : option (list tree) :=
-  match l with
-  | [] => None
-  | T a :: l' => option_map (cons (Leaf a 0)) (kids_pump mins pt l')
-  | R r :: l' => match tget pt r with
-                 | Some t => option_map (cons t) (kids_min mins l')
-                 | None => match eget mins r, kids_pump mins pt l' with
-                           | Some (_, t), Some ks => Some (t :: ks)
-                           | _, _ => None
-                           end
-                 end
-  end.
-
-Definition pump_step (g : grammar) (mins : list ent) (pt : list (option tree)) : list (option tree) :=
-  map (fun r =>
-         match tget pt r with
-         | Some t => Some t
-         | None =>
-             fold_left (fun acc ip =>
-                          match acc with
-                          | Some _ => acc
-                          | None => if N.eqb (fst (snd ip)) r then
-                                      option_map (Node (fst ip)) (kids_pump mins pt (snd (snd ip)))
-                                    else None
-                          end)
-                       (combine (pidxs g) (prods g)) None
-         end) (ridxs g).
-
-(* a node whose rule occurs among its ancestors with a strictly larger cost *)
-Fixpoint find_pump (g : grammar) (c : N -> N) (anc : list (N * N * list nat)) (qrev : list nat) (t : tree)
-  : option (list nat * list nat) :=
-  match t with
-  | Leaf _ _ => None
-  | Node p kids =>
-      let b := lhs g p in
-      let cb := cost c t in
-      match find (fun a => N.eqb (fst (fst a)) b && (cb <? snd (fst a))%N) anc with
-      | Some (_, q') => Some (rev q', skipn (length q') (rev qrev))
-      | None =>
-          let anc' := (b, cb, qrev) :: anc in
-          (fix go (ks : list tree) (i : nat) : option (list nat * list nat) :=
-             match ks with
-             | [] => None
-             | k :: ks' => match find_pump g c anc' (i :: qrev) k with
-                           | Some x => Some x
-                           | None => go ks' (S i)
-                           end
-             end) kids 0%nat
+  | x :: l' =>
+      match (match subs k with
+             | Some t => Some t
+             | None => match x with
+                       | T a => Some (Leaf a 0)
+                       | R r => option_map snd (eget mins r)
+                       end
+             end), kids_sub mins l' (S k) subs with
+      | Some t, Some ks => Some (t :: ks)
+      | _, _ => None
       end
   end.
+
+Definition sub1 (i : nat) (t : tree) : nat -> option tree := fun k => if Nat.eqb k i then Some t else None.
+Definition sub2 (i : nat) (t : tree) (j : nat) (u : tree) : nat -> option tree :=
+  fun k => if Nat.eqb k i then Some t else if Nat.eqb k j then Some u else None.
+
+(* a tree of positive cost for every rule that has one *)
+Definition pos_prod (c : N -> N) (mins : list ent) (pos : list (option tree)) (ip : N * (N * list sym)) : option tree :=
+  let rhs := snd (snd ip) in
+  first_some (fun js => match snd js with
+                        | T a => if (0 <? c a)%N then option_map (Node (fst ip)) (kids_sub mins rhs 0 (fun _ => None)) else None
+                        | R q => match tget pos q with
+                                 | Some tq => option_map (Node (fst ip)) (kids_sub mins rhs 0 (sub1 (fst js) tq))
+                                 | None => None
+                                 end
+                        end) (positions rhs).
+
+Definition pos_step (g : grammar) (c : N -> N) (mins : list ent) (pos : list (option tree)) : list (option tree) :=
+  map (fun r => match tget pos r with
+                | Some t => Some t
+                | None => first_some (fun ip => if N.eqb (fst (snd ip)) r then pos_prod c mins pos ip else None) (iprods g)
+                end) (ridxs g).
+
+(* contexts: for a target tree [tb], per rule x a tree rooted at x that contains
+   [tb] at the recorded path; [s0]: any such tree, [s1]: one whose leaves outside
+   [tb] have positive cost *)
+Definition ctxs := list (option (tree * list nat)).
+Definition xget (s : ctxs) (r : N) : option (tree * list nat) := nth (N.to_nat r) s None.
+
+Definition ctx_plain (mins : list ent) (s : ctxs) (ip : N * (N * list sym)) : option (tree * list nat) :=
+  let rhs := snd (snd ip) in
+  first_some (fun js => match snd js with
+                        | R q => match xget s q with
+                                 | Some (tq, path) =>
+                                     option_map (fun ks => (Node (fst ip) ks, fst js :: path))
+                                                (kids_sub mins rhs 0 (sub1 (fst js) tq))
+                                 | None => None
+                                 end
+                        | T _ => None
+                        end) (positions rhs).
+
+Definition ctx_gain (c : N -> N) (mins : list ent) (pos : list (option tree)) (s0 : ctxs) (ip : N * (N * list sym))
+  : option (tree * list nat) :=
+  let rhs := snd (snd ip) in
+  first_some (fun js =>
+    match snd js with
+    | R q =>
+        match xget s0 q with
+        | Some (tq, path) =>
+            first_some (fun js2 =>
+              if Nat.eqb (fst js2) (fst js) then None else
+              match snd js2 with
+              | T a => if (0 <? c a)%N then
+                         option_map (fun ks => (Node (fst ip) ks, fst js :: path)) (kids_sub mins rhs 0 (sub1 (fst js) tq))
+                       else None
+              | R q2 => match tget pos q2 with
+                        | Some tp => option_map (fun ks => (Node (fst ip) ks, fst js :: path))
+                                                (kids_sub mins rhs 0 (sub2 (fst js) tq (fst js2) tp))
+                        | None => None
+                        end
+              end) (positions rhs)
+        | None => None
+        end
+    | T _ => None
+    end) (positions rhs).
+
+Definition ctx_step (g : grammar) (c : N -> N) (mins : list ent) (pos : list (option tree)) (s : ctxs * ctxs) : ctxs * ctxs :=
+  let (s0, s1) := s in
+  (map (fun r => match xget s0 r with
+                 | Some x => Some x
+                 | None => first_some (fun ip => if N.eqb (fst (snd ip)) r then ctx_plain mins s0 ip else None) (iprods g)
+                 end) (ridxs g),
+   map (fun r => match xget s1 r with
+                 | Some x => Some x
+                 | None => first_some (fun ip => if N.eqb (fst (snd ip)) r then
+                                                   match ctx_plain mins s1 ip with
+                                                   | Some x => Some x
+                                                   | None => ctx_gain c mins pos s0 ip
+                                                   end
+                                                 else None) (iprods g)
+                 end) (ridxs g)).
+
+Definition ctx_init (g : grammar) (b : N) (tb : tree) : ctxs * ctxs :=
+  (map (fun r => if N.eqb r b then Some (tb, []) else None) (ridxs g), map (fun _ => None) (ridxs g)).
+
+Definition ctx_run (g : grammar) (c : N -> N) (mins : list ent) (pos : list (option tree)) (b : N) (tb : tree) : ctxs * ctxs :=
+  iter (S (S (2 * nr g))) (ctx_step g c mins pos) (ctx_init g b tb).
 
 Record cost_cert := mkCert {
   cc_min : list (option N);  cc_minw : list (option tree);
@@ -240,21 +290,30 @@ Definition pget (s : list (option (tree * (list nat * list nat)))) (r : N) := nt
 
 Definition search (g : grammar) (c : N -> N) : cost_cert :=
   let mins := min_ents g c in
-  let hi1 := max_ents g c (S (nr g)) (ents0 g) in
-  let hi2 := max_ents g c (S (nr g)) hi1 in
-  (* rules whose best tree still grows after nrules rounds *)
-  let grow := map (fun r => match eget hi1 r, eget hi2 r with
-                            | Some (v1, _), Some (v2, t2) => if (v1 <? v2)%N then Some t2 else None
-                            | _, _ => None
-                            end) (ridxs g) in
-  let pt := iter (S (nr g)) (pump_step g mins) grow in
-  mkCert (vals mins) (trees mins)
-         (map (fun r => match tget pt r with Some _ => None | None => option_map fst (eget hi1 r) end) (ridxs g))
-         (map (fun r => option_map snd (eget hi1 r)) (ridxs g))
-         (map (fun r => match tget pt r with
-                        | Some t => match find_pump g c [] [] t with Some pp => Some (t, pp) | None => None end
-                        | None => None
-                        end) (ridxs g)).
+  let pos := iter (S (nr g)) (pos_step g c mins) (map (fun _ => None) (ridxs g)) in
+  (* rules b with a tree  b =>* u b v  of positive cost(u)+cost(v): the tree and the path of the inner b *)
+  let pumps : ctxs :=
+    map (fun b => match eget mins b with
+                  | Some (_, tb) => xget (snd (ctx_run g c mins pos b tb)) b
+                  | None => None
+                  end) (ridxs g) in
+  (* for each such b: contexts from every rule that reaches b, around b's pump tree *)
+  let around : list (option (ctxs * list nat)) :=
+    map (fun b => match xget pumps b with
+                  | Some (tb, p2) => Some (fst (ctx_run g c mins pos b tb), p2)
+                  | None => None
+                  end) (ridxs g) in
+  let pumpc : list (option (tree * (list nat * list nat))) :=
+    map (fun r => first_some (fun a => match a with
+                                       | Some (s0, p2) => match xget s0 r with
+                                                          | Some (t, p1) => Some (t, (p1, p2))
+                                                          | None => None
+                                                          end
+                                       | None => None
+                                       end) around) (ridxs g) in
+  let unb := fun r => match pget pumpc r with Some _ => true | None => false end in
+  let his := max_ents g c (fun r => negb (unb r)) in
+  mkCert (vals mins) (trees mins) (vals his) (trees his) pumpc.
 
 Definition cert_ok (g : grammar) (c : N -> N) (cc : cost_cert) : bool :=
   chk_max_fin g c (oget (cc_min cc)) (tget (cc_minw cc)) (oget (cc_max cc)) (tget (cc_maxw cc)) &&
